@@ -11,13 +11,15 @@ namespace Prog2
 open HTree Spec Prog Fmap
 open Forest (entryKey)
 
-/-- The new value is of the kind of the old one (and keeps the key of an attribute). -/
+/-- The new value is of the kind of the old one (and keeps the key of an attribute / the prefix of a
+    namespace declaration). -/
 def sameKind : Value → Value → Bool
   | .text _, .text _ => true
   | .element _, .element _ => true
   | .comment _, .comment _ => true
   | .pi _ _, .pi _ _ => true
   | .attribute a _, .attribute b _ => a == b
+  | .namespace a _, .namespace b _ => a == b
   | _, _ => false
 
 /-- What a child list's local conditions see of a child's value. -/
